@@ -63,6 +63,9 @@ pub struct SerOut {
 /// (an accepted message yields an error, an empty packet, or a wrong droppable flag).
 pub fn run_serializer(seq: &Seq) -> Result<SerOut, String> {
     let mut ser = ChunkSerializer::new();
+    // timestamps run per type id (the library maps type ids to chunk streams), so equal deltas
+    // on one chunk stream - the precondition of format 3 - are frequent
+    let mut ts_by_type: std::collections::HashMap<u8, u32> = std::collections::HashMap::new();
     let mut ts = 0u32;
     let mut out = SerOut {
         packets: Vec::new(),
@@ -71,7 +74,9 @@ pub fn run_serializer(seq: &Seq) -> Result<SerOut, String> {
     for (i, op) in seq.ops.iter().enumerate() {
         match op {
             Op::Msg(m) => {
-                ts = ts.wrapping_add(m.dts);
+                let e = ts_by_type.entry(m.type_id).or_insert(0);
+                *e = e.wrapping_add(m.dts);
+                ts = *e;
                 let msg = Msg {
                     ts,
                     type_id: m.type_id,
@@ -244,4 +249,93 @@ pub fn ref_decode(strict: bool, stream: &[u8]) -> Result<(Vec<DecMsg>, Vec<(u64,
     let out = d.feed(stream)?;
     d.finish()?;
     Ok((out, d.chunk_map))
+}
+
+// ------------------------------------------------------------------------------------------------
+// Foreign (reference-encoded) streams
+
+use crate::refs::chunk::{EncOpts, RefChunkEnc};
+
+#[derive(Clone, Debug, Serialize, Deserialize, PartialEq)]
+pub struct FMsg {
+    pub csid: u32,
+    pub want_fmt: u8,
+    pub three_byte: bool,
+    pub fmt0_cont: bool,
+    pub type_id: u8,
+    pub msid: u32,
+    pub dts: u32,
+    pub len: u32,
+    pub fill: u32,
+}
+
+#[derive(Clone, Debug, Serialize, Deserialize, PartialEq)]
+pub enum FOp {
+    Msg(FMsg),
+    Chunk(u32),
+}
+
+pub struct ForeignOut {
+    pub stream: Vec<u8>,
+    pub expected: Vec<Msg>,
+    /// header format actually used per message
+    pub fmts: Vec<u8>,
+    pub non_minimal_csid: bool,
+}
+
+pub fn encode_foreign(ops: &[FOp]) -> ForeignOut {
+    let mut enc = RefChunkEnc::new();
+    // timestamps run per chunk stream (see run_serializer)
+    let mut ts_by_csid: std::collections::HashMap<u32, u32> = std::collections::HashMap::new();
+    let mut ts = 0u32;
+    let mut out = ForeignOut {
+        stream: Vec::new(),
+        expected: Vec::new(),
+        fmts: Vec::new(),
+        non_minimal_csid: false,
+    };
+    for op in ops {
+        match op {
+            FOp::Msg(m) => {
+                let e = ts_by_csid.entry(m.csid).or_insert(0);
+                *e = e.wrapping_add(m.dts);
+                ts = *e;
+                let msg = Msg {
+                    ts,
+                    type_id: m.type_id,
+                    msid: m.msid,
+                    payload: fill_bytes(m.fill, m.len as usize),
+                };
+                let e = enc.encode(
+                    &msg,
+                    &EncOpts {
+                        csid: m.csid,
+                        want_fmt: m.want_fmt,
+                        three_byte: m.three_byte,
+                        fmt0_continuation: m.fmt0_cont,
+                    },
+                );
+                if m.three_byte && m.csid >= 64 && m.csid < 320 {
+                    out.non_minimal_csid = true;
+                }
+                for c in &e.chunks {
+                    out.stream.extend_from_slice(c);
+                }
+                out.fmts.push(e.fmt);
+                out.expected.push(msg);
+            }
+            FOp::Chunk(n) => {
+                let bytes = enc.set_chunk_size(*n, ts);
+                out.stream.extend_from_slice(&bytes);
+                out.fmts.push(0);
+                out.expected.push(Msg {
+                    ts,
+                    type_id: 1,
+                    msid: 0,
+                    payload: n.to_be_bytes().to_vec(),
+                });
+            }
+        }
+    }
+    out
 }
